@@ -234,6 +234,11 @@ func (m *Mitm) acceptLoop() {
 		deadline := time.Now().Add(8 * time.Second)
 		for !m.stop.Load() && time.Now().Before(deadline) {
 			c, err := net.DialTimeout("tcp", fmt.Sprintf("%s:%d", m.host, m.target()), time.Second)
+			if err == nil && c.LocalAddr().String() == c.RemoteAddr().String() {
+				// TCP self-connection to the passive end's old, now unbound port (see peer.IsSelfConn): not a link
+				_ = c.Close()
+				err = fmt.Errorf("self-connect")
+			}
 			if err == nil {
 				b = c
 
